@@ -167,6 +167,111 @@ pub(crate) fn inv_committed(sim: &Sim, chain: &Chain) -> Vec<String> {
     bad
 }
 
+/// Consistent forgeries of a pending `SendTransactionsProof` (V0 and V1): the header set (and so
+/// the MMR proof) stays as it is, the transactions inside the filtered blocks are re-assigned:
+/// a requested transaction that no block contains takes the place of a committed one (keeping
+/// that one's Merkle path), transactions move between filtered blocks, a filtered block claims
+/// an additional requested transaction.
+fn tx_proof_forgeries(w: &c10::Worlds, home: &crate::verif::driver::InFlight) -> Vec<crate::verif::mutate::Mutant> {
+    use crate::verif::mutate::Mutant;
+    let mut out = vec![];
+    if home.proto != crate::verif::net::Proto::LightClient {
+        return out;
+    }
+    let msg = match packed::LightClientMessage::from_compatible_slice(&home.data) {
+        Ok(m) => m,
+        Err(_) => return out,
+    };
+    let phantom = c10::phantom_tx(w).data();
+    let phantom_hash = phantom.calc_tx_hash();
+    // (filtered blocks, missing hashes, rebuild)
+    type Rebuild = Box<dyn Fn(Vec<packed::FilteredBlock>, Vec<packed::Byte32>) -> ckb_types::bytes::Bytes>;
+    let (fbs, missing, rebuild): (Vec<packed::FilteredBlock>, Vec<packed::Byte32>, Rebuild) = match msg.to_enum() {
+        packed::LightClientMessageUnion::SendTransactionsProof(m) if m.count_extra_fields() >= 2 => {
+            let m2 = packed::SendTransactionsProofV1::new_unchecked(m.as_bytes());
+            (
+                m.filtered_blocks().into_iter().collect(),
+                m.missing_tx_hashes().into_iter().collect(),
+                Box::new(move |f, miss| {
+                    let c = m2
+                        .clone()
+                        .as_builder()
+                        .filtered_blocks(packed::FilteredBlockVec::new_builder().set(f).build())
+                        .missing_tx_hashes(miss.pack())
+                        .build();
+                    let c = packed::SendTransactionsProof::new_unchecked(c.as_bytes());
+                    packed::LightClientMessage::new_builder().set(c).build().as_bytes()
+                }),
+            )
+        }
+        packed::LightClientMessageUnion::SendTransactionsProof(m) => {
+            let m2 = m.clone();
+            (
+                m.filtered_blocks().into_iter().collect(),
+                m.missing_tx_hashes().into_iter().collect(),
+                Box::new(move |f, miss| {
+                    let c = m2
+                        .clone()
+                        .as_builder()
+                        .filtered_blocks(packed::FilteredBlockVec::new_builder().set(f).build())
+                        .missing_tx_hashes(miss.pack())
+                        .build();
+                    packed::LightClientMessage::new_builder().set(c).build().as_bytes()
+                }),
+            )
+        }
+        _ => return out,
+    };
+    let with_txs = |fb: &packed::FilteredBlock, txs: Vec<packed::Transaction>| -> packed::FilteredBlock {
+        fb.clone()
+            .as_builder()
+            .transactions(packed::TransactionVec::new_builder().set(txs).build())
+            .build()
+    };
+    let without = |miss: &[packed::Byte32], h: &packed::Byte32| -> Vec<packed::Byte32> { miss.iter().filter(|x| *x != h).cloned().collect() };
+    for i in 0..fbs.len() {
+        let txs: Vec<packed::Transaction> = fbs[i].transactions().into_iter().collect();
+        // the phantom replaces each committed transaction of this filtered block
+        for t in 0..txs.len() {
+            let mut v = txs.clone();
+            let displaced = v[t].calc_tx_hash();
+            v[t] = phantom.clone();
+            let mut f = fbs.clone();
+            f[i] = with_txs(&fbs[i], v);
+            let mut miss = without(&missing, &phantom_hash);
+            out.push(Mutant { label: format!("forge:phantom-replaces-tx(block#{})", i), data: rebuild(f.clone(), miss.clone()) });
+            miss.push(displaced);
+            out.push(Mutant { label: format!("forge:phantom-replaces-tx+displaced-missing(block#{})", i), data: rebuild(f, miss) });
+        }
+        // the phantom is claimed in addition
+        for pos in 0..=txs.len() {
+            let mut v = txs.clone();
+            v.insert(pos, phantom.clone());
+            let mut f = fbs.clone();
+            f[i] = with_txs(&fbs[i], v);
+            out.push(Mutant { label: format!("forge:phantom-added(block#{})", i), data: rebuild(f, without(&missing, &phantom_hash)) });
+        }
+        // transactions of another filtered block are claimed by this one
+        for j in 0..fbs.len() {
+            if i == j {
+                continue;
+            }
+            let other: Vec<packed::Transaction> = fbs[j].transactions().into_iter().collect();
+            let mut f = fbs.clone();
+            f[i] = with_txs(&fbs[i], other.clone());
+            f[j] = with_txs(&fbs[j], txs.clone());
+            out.push(Mutant { label: format!("forge:transactions-swapped(block#{},block#{})", i, j), data: rebuild(f, missing.clone()) });
+            let mut f = fbs.clone();
+            let mut both = txs.clone();
+            both.extend(other);
+            f[i] = with_txs(&fbs[i], both);
+            f.remove(j);
+            out.push(Mutant { label: format!("forge:transactions-merged(block#{}<-block#{})", i, j), data: rebuild(f, missing.clone()) });
+        }
+    }
+    out
+}
+
 const HOME_SCNS: [Scn; 3] = [Scn::MatchedBlocksProof, Scn::MatchedBlocks, Scn::FetchProofs];
 
 pub(crate) fn run(opts: &Opts, report: &mut Report) {
@@ -289,7 +394,8 @@ pub(crate) fn run(opts: &Opts, report: &mut Report) {
                     }
                 }
             };
-            sweep::sweep_scenario(&env, &w, params, scn, &sweep_opts, &|_| vec![], &cross, &view, &mut judge)
+            let wref = &w;
+            sweep::sweep_scenario(&env, &w, params, scn, &sweep_opts, &|home| tx_proof_forgeries(wref, home), &cross, &view, &mut judge)
         };
         // vacuity guard + honest control: finish the history honestly; the index must be
         // non-empty and committed
